@@ -120,14 +120,14 @@ def run(ctx):
     from .C09 import clone_problems
     ncl = 0
     for cb in f.trait_impl_methods('clone::Clone', 'clone'):
-        if cb.derived or cb.crate_kind != 'lib' or f.norm(cb.impl_self_adt or '') not in ('cell::Cell2', 'site::OccupiedSite', 'wallpaper::Wallpaper'):
+        if cb.crate_kind != 'lib' or f.norm(cb.impl_self_adt or '') not in ('cell::Cell2', 'site::OccupiedSite', 'wallpaper::Wallpaper'):
             continue
         ncl += 1
         probs = clone_problems(f, cb)
         rep.check(not probs, 'R4', 'clone-preserves-family-and-parameters:%s' % f.norm(cb.impl_self_adt), where(cb),
                   'every field from the same-named field of self', 'a cloned %s is not a faithful copy (%s): optimising a clone can '
                   'leave the crystal family of the group' % (f.norm(cb.impl_self_adt), probs[:3]))
-    rep.floor('R4', 'manual Clone impls of cell/site', ncl, 2)
+    rep.floor('R4', 'Clone impls of cell/site', ncl, 2)
     # family of the cell comes from the group's table entry: initialise passes wallpaper.family to from_family
     from ..mirutil import Tracer, call_matches, field_path
     k = 0
